@@ -4,8 +4,8 @@ from lib.engine import Family
 from lib.gen import *
 from lib.apigen import *
 
-THEOREMS = ["protect_refines", "protect_alias_independent", "srtp_round_trip", "protect_rtcp_refines", "unprotect_rtcp_refines",
-            "protect_rtcp_alias_independent", "protect_rtcp_inplace_vs_outofplace", "unprotect_rtcp_alias_independent",
+THEOREMS = ["protect_refines_domain", "protect_alias_independent_domain", "unprotect_refines", "unprotect_buffers_independent", "unprotect_alias_independent",
+            "unprotect_prefill_independent", "protect_rtcp_refines", "unprotect_rtcp_refines", "protect_rtcp_alias_independent", "unprotect_rtcp_alias_independent",
             "protect_alias_cryptex_xtn_refuted (known finding F16)"]
 TRUSTED_BASE = ["Coq 8.16.1 kernel", "tools/gen_constants.py", "extraction (ExtrOcamlBasic) + harness/mdrv.ml",
                 "harness/cdrv*.c (in-place and three out-of-place pre-fills of the destination), ASan/UBSan",
